@@ -9,6 +9,7 @@ correspondence streams: outcome, statement sequence, full state after the call.
 oracle (independent of the model): if the call raised, tables / link tables / every attribute of every
              reachable instance / registered ids are what they were, and attributes equal the raw row.
 """
+import gc
 import glob
 import json
 import os
@@ -578,6 +579,7 @@ def trials_for(vi, history, op):
             bd2, bs2 = e2.dump(), e2.snapshot()
             o2, l2 = e2.run(op, k, kind)
             res.append(dict(k=k, kind=kind, out=o2, log=l2, env=e2, before=bd2, snap=bs2, n=n, clean_out=out))
+    gc.collect()     # interrupted iterations die while their connection is still open (no noise at exit)
     return res
 
 
